@@ -25,6 +25,11 @@ CLAIMED = {
     note="Trusted: Coq kernel (axiom-free theorems); POSIX rename atomicity and dlopen; harness/c18.py (scripted compiler, process driver); the model's step granularity (lookup+load and publish+load cannot be separated in the real process without hooks and are scheduled back to back).",
     technique="Coq proof (invariant over all schedules and crash points) + real-process schedule correspondence",
     design="DESIGN.md §3 C18"),
+ "C17": dict(
+    text="Coq state machine of the three caches (in-process module cache keyed by dependency mtimes, template cache keyed by mtime, on-disk library cache keyed by (tag of generated source, precision)) with theorems over every history of edits, loads at any precision and process restarts: every load evaluates a library compiled from the current texts (C17_load_current, by an invariant proved by induction over the history), so reverting a file restores the earlier result and different sources or precisions never share a library - under the named hypothesis that the tag identifies the source, which each run checks on the sources it explores. Tied to the code by real edit/load/restart histories on a scratch plug-in with an included C file whose numerical result encodes which texts were compiled, compared step by step (results and directory listing) with the Coq model run on the same history.",
+    note="Trusted: Coq kernel (axiom-free; tag injectivity is an explicit hypothesis, CRC32 is not injective in general); file mtimes advance per edit (os.utime); kernel templates are not edited in the real runs; harness/c17.py.",
+    technique="Coq proof (state-machine invariant over all histories) + real history correspondence",
+    design="DESIGN.md §3 C17"),
 }
 NA_REASON = "check not built yet in this session (planned, see DESIGN.md §7)"
 
